@@ -98,6 +98,7 @@ size_t G_written;              /* stream positions handed to the kernel / OpenSS
 int G_errno;                   /* errno */
 unsigned G_send_calls;         /* calls of send() (saturating) */
 unsigned G_sslw_calls;         /* calls of SSL_write() (saturating) */
+int G_ssl_fatal;                /* SEARCH build: the scripted failure was fatal */
 int G_ssl_last_ret;            /* return value of the last failed SSL_write/SSL_read (SSL_get_error must be asked about it) */
 typedef struct iora_ssl_st SSL;
 #ifndef EAGAIN
@@ -114,6 +115,14 @@ typedef struct iora_ssl_st SSL;
 
 #ifndef IORA_NATIVE
 long nondet_long(void);
+#ifdef IORA_SEARCH
+/* bounded SEARCH build: the environment answers from a script chosen by the search harness (so that the answers are harness
+ * inputs that REPLAY can feed to the interposed syscalls): 0xFF = would block, 0xFE = fatal, k = min(k, len) bytes */
+uint8_t IORA_ENV_SCRIPT[8]; unsigned IORA_ENV_i;
+static inline long iora_env_next(size_t len, int *fatal)
+{ uint8_t c = IORA_ENV_i < 8 ? IORA_ENV_SCRIPT[IORA_ENV_i] : 0xFF; IORA_ENV_i++; *fatal = (c == 0xFE);
+  if (c >= 0xFE) return -1; return (size_t)c < len ? (long)c : (long)len; }
+#endif
 /* ssize_t send(int fd, const void *buf, size_t len, int flags) */
 static inline long iora_send(int fd, iora_gptr buf, size_t len, int flags)
 {
@@ -121,10 +130,15 @@ static inline long iora_send(int fd, iora_gptr buf, size_t len, int flags)
   IORA_ASSERT(buf.pos == G_written, "S2 send(): the first byte handed to the kernel is the next unsent stream byte (no skip, no duplicate, no reordering)");
   IORA_ASSERT(len <= buf.lim - buf.pos, "S2 send(): the length stays inside the buffer (narrowing of size() to int must not change it)");
   if (G_send_calls < 0x7fffffffu) G_send_calls++;
+#ifdef IORA_SEARCH
+  int fatal; long r = iora_env_next(len, &fatal);
+  if (r < 0) G_errno = fatal ? 104 /* ECONNRESET */ : EAGAIN;
+#else
   long r = nondet_long();
   IORA_ASSUME(r >= -1 && (r < 0 || (size_t)r <= len));      /* ENV: -1 or a short/full count */
   if (r < 0) G_errno = nondet_int();                         /* ENV: any errno */
-  else G_written += (size_t)r;
+#endif
+  if (r >= 0) G_written += (size_t)r;
   return r;
 }
 /* int SSL_write(SSL *ssl, const void *buf, int num): > 0 = that many bytes were taken, <= 0 = nothing was taken (ask SSL_get_error) */
@@ -135,8 +149,12 @@ static inline int iora_SSL_write(SSL *ssl, iora_gptr buf, int num)
   IORA_ASSERT(num > 0, "SSL_write(): num > 0 (OpenSSL: \"You should not call SSL_write() with num=0\"; a narrowed size() must stay positive)");
   IORA_ASSERT((size_t)num <= buf.lim - buf.pos, "S2 SSL_write(): the length stays inside the buffer");
   if (G_sslw_calls < 0x7fffffffu) G_sslw_calls++;
+#ifdef IORA_SEARCH
+  int fatal; int r = (int)iora_env_next((size_t)num, &fatal); G_ssl_fatal = fatal;
+#else
   int r = nondet_int();
   IORA_ASSUME(r >= -1 && r <= num);                           /* ENV: <= 0 failure / retry, else a (possibly partial) count */
+#endif
   if (r > 0) G_written += (size_t)r;
   else G_ssl_last_ret = r;
   return r;
@@ -146,8 +164,12 @@ static inline int iora_SSL_get_error(SSL *ssl, int ret)
 {
   IORA_ASSERT(ssl != 0, "SSL_get_error(): session has an SSL object");
   IORA_ASSERT(ret <= 0 && ret == G_ssl_last_ret, "SSL_get_error() is asked about the return value of the failed SSL call");
+#ifdef IORA_SEARCH
+  int e = G_ssl_fatal ? SSL_ERROR_SSL : SSL_ERROR_WANT_WRITE;
+#else
   int e = nondet_int();
   IORA_ASSUME(e >= SSL_ERROR_SSL && e <= 12);                 /* ENV: ret <= 0 never yields SSL_ERROR_NONE */
+#endif
   return e;
 }
 static inline unsigned long iora_ERR_get_error(void) { unsigned long e; return e; }
